@@ -122,19 +122,14 @@ Proof. exact conv_injective_lemma. Qed.
 (** Decoding is faithful (file format): for EVERY spec of the subset and EVERY list of at most
     128 well-formed frames (any mix of CONSTANT / VERBATIM subframes, any in-range samples, the
     last frames possibly shorter), the strict reference decoder returns exactly the spec and
-    the frames the independent encoder was given, and reports a complete stream. *)
+    the frames the independent encoder was given, and reports a complete stream; and what the
+    encoder writes is a sequence of bytes. *)
 Theorem flac_roundtrip :
   forall (sp : fspec) (frames : list fframe),
     fspec_ok sp -> Forall (fframe_ok sp) frames -> (length frames <= 128)%nat ->
-    flac_decode (flac_encode sp frames) = Some (FDec sp frames StEnd).
-Proof. exact flac_roundtrip_lemma. Qed.
-
-(** ... and what the encoder writes is a sequence of bytes. *)
-Theorem flac_encode_bytes :
-  forall (sp : fspec) (frames : list fframe),
-    fspec_ok sp -> Forall (fframe_ok sp) frames -> (length frames <= 128)%nat ->
+    flac_decode (flac_encode sp frames) = Some (FDec sp frames StEnd) /\
     Forall (fun b => 0 <= b < 256) (flac_encode sp frames).
-Proof. exact flac_encode_bytes_lemma. Qed.
+Proof. exact flac_roundtrip_bytes_lemma. Qed.
 
 (** Bad files: a file that is intact at container level but whose frame [k] (ANY k, ANY
     content) has a defect -- a reserved subframe type in any channel, a reserved sample-size
@@ -149,23 +144,18 @@ Theorem flac_bad_frame_stops :
 Proof. exact flac_bad_frame_lemma. Qed.
 
 (** Truncated files: a file cut anywhere INSIDE frame [k] decodes to exactly the frames before
-    [k], and the truncation is reported ... *)
+    [k] and the truncation is reported; a file cut exactly in front of frame [k] to the frames
+    before [k], with the announced number of samples not reached. *)
 Theorem flac_truncation_prefix :
-  forall (sp : fspec) (frames : list fframe) (k : nat) (fr : fframe) (j : nat),
+  forall (sp : fspec) (frames : list fframe) (k : nat) (fr : fframe),
     fspec_ok sp -> Forall (fframe_ok sp) frames -> (length frames <= 128)%nat ->
-    nth_error frames k = Some fr -> (0 < j < length (enc_fframe sp (Z.of_nat k) fr None))%nat ->
-    flac_decode (firstn (42 + length (enc_frames sp 0 (firstn k frames) None) + j) (flac_encode sp frames)) =
-    Some (FDec sp (firstn k frames) StTrunc).
-Proof. exact flac_truncation_lemma. Qed.
-
-(** ... and a file cut exactly in front of frame [k] to the frames before [k], with the
-    announced number of samples not reached. *)
-Theorem flac_cut_at_frame_boundary :
-  forall (sp : fspec) (frames : list fframe) (k : nat),
-    fspec_ok sp -> Forall (fframe_ok sp) frames -> (length frames <= 128)%nat -> (k < length frames)%nat ->
+    nth_error frames k = Some fr ->
+    (forall j : nat, (0 < j < length (enc_fframe sp (Z.of_nat k) fr None))%nat ->
+       flac_decode (firstn (42 + length (enc_frames sp 0 (firstn k frames) None) + j) (flac_encode sp frames)) =
+       Some (FDec sp (firstn k frames) StTrunc)) /\
     flac_decode (firstn (42 + length (enc_frames sp 0 (firstn k frames) None)) (flac_encode sp frames)) =
     Some (FDec sp (firstn k frames) StShort).
-Proof. exact flac_cut_at_boundary_lemma. Qed.
+Proof. exact flac_truncation_both_lemma. Qed.
 
 (** What a loader is specified to return ([flac_ref_load]; the harness compares kira with it).
     A valid file: the encoded rate and the specified conversion of every time step
@@ -183,81 +173,51 @@ Theorem flac_load_spec :
     end.
 Proof. exact flac_load_lemma. Qed.
 
-Theorem flac_spec_frames_mono_dup :
+(** The specified frames: as many time steps as the frames announce (the frame count); mono
+    duplicated to both channels; stereo as is; more channels unsupported. *)
+Theorem flac_spec_frames_shape :
   forall (sp : fspec) (frames : list fframe),
-    fl_ch sp = 1 -> Forall (fframe_ok sp) frames ->
-    fl_spec_frames sp frames =
-    Some (map (fun st => let m := fl_conv (fl_bps sp) (hd 0 st) in (m, m)) (fl_audio frames)).
-Proof. exact fl_spec_frames_mono. Qed.
+    Forall (fframe_ok sp) frames ->
+    Z.of_nat (length (fl_audio frames)) = total_of frames /\
+    (fl_ch sp = 1 ->
+       fl_spec_frames sp frames =
+       Some (map (fun st => let m := fl_conv (fl_bps sp) (hd 0 st) in (m, m)) (fl_audio frames))) /\
+    (fl_ch sp = 2 ->
+       fl_spec_frames sp frames =
+       Some (map (fun st => (fl_conv (fl_bps sp) (nth 0 st 0), fl_conv (fl_bps sp) (nth 1 st 0))) (fl_audio frames))) /\
+    (3 <= fl_ch sp -> frames <> [] -> fl_spec_frames sp frames = None).
+Proof. exact fl_spec_frames_shape_lemma. Qed.
 
-Theorem flac_spec_frames_stereo_pair :
-  forall (sp : fspec) (frames : list fframe),
-    fl_ch sp = 2 -> Forall (fframe_ok sp) frames ->
-    fl_spec_frames sp frames =
-    Some (map (fun st => (fl_conv (fl_bps sp) (nth 0 st 0), fl_conv (fl_bps sp) (nth 1 st 0))) (fl_audio frames)).
-Proof. exact fl_spec_frames_stereo. Qed.
-
-Theorem flac_spec_frames_multichannel_error :
-  forall (sp : fspec) (frames : list fframe),
-    3 <= fl_ch sp -> Forall (fframe_ok sp) frames -> frames <> [] -> fl_spec_frames sp frames = None.
-Proof. exact fl_spec_frames_multi. Qed.
-
-(** The frame count: the audio has as many time steps as the frames announce. *)
-Theorem flac_audio_length :
-  forall (sp : fspec) (frames : list fframe),
-    Forall (fframe_ok sp) frames -> Z.of_nat (length (fl_audio frames)) = total_of frames.
-Proof. exact fl_audio_length. Qed.
-
-(** A file with a defective frame: an error value. *)
-Theorem flac_load_bad_frame_is_error :
-  forall (sp : fspec) (frames : list fframe) (k : nat) (fr : fframe) (d : defect),
+(** A file with a defective frame: an error value.  A file cut inside frame [k] or exactly in
+    front of it: the valid prefix of the audio, ending at the boundary of frame [k] (the samples
+    of the first [k] frames, nothing else). *)
+Theorem flac_load_bad_files :
+  forall (sp : fspec) (frames : list fframe) (k : nat) (fr : fframe),
     fspec_ok sp -> Forall (fframe_ok sp) frames -> (length frames <= 128)%nat ->
-    nth_error frames k = Some fr -> defect_ok fr d ->
-    flac_ref_load (flac_encode_bad sp frames (Some (k, d))) = LErr.
-Proof. exact flac_load_bad_lemma. Qed.
-
-(** A file cut inside frame [k] or exactly in front of it: the valid prefix of the audio, ending
-    at the boundary of frame [k] (the samples of the first [k] frames, nothing else). *)
-Theorem flac_load_truncated_is_prefix :
-  forall (sp : fspec) (frames : list fframe) (k : nat) (fr : fframe) (j : nat) (frs : list (f32 * f32)),
-    fspec_ok sp -> Forall (fframe_ok sp) frames -> (length frames <= 128)%nat ->
-    nth_error frames k = Some fr -> (j < length (enc_fframe sp (Z.of_nat k) fr None))%nat ->
-    fl_spec_frames sp frames = Some frs ->
-    flac_ref_load (firstn (42 + length (enc_frames sp 0 (firstn k frames) None) + j) (flac_encode sp frames)) =
-    LOk (fl_rate sp) (firstn (Z.to_nat (total_of (firstn k frames))) frs).
-Proof. exact flac_load_truncated_lemma. Qed.
-
-(** The two checksums stay inside their registers. *)
-Theorem flac_crc_ranges :
-  forall (bs : list Z), 0 <= crc8 bs < 256 /\ 0 <= crc16 bs < 65536.
-Proof. exact (fun bs => conj (crc8_range bs) (crc16_range bs)). Qed.
+    nth_error frames k = Some fr ->
+    (forall d : defect, defect_ok fr d ->
+       flac_ref_load (flac_encode_bad sp frames (Some (k, d))) = LErr) /\
+    (forall (j : nat) (frs : list (f32 * f32)),
+       (j < length (enc_fframe sp (Z.of_nat k) fr None))%nat ->
+       fl_spec_frames sp frames = Some frs ->
+       flac_ref_load (firstn (42 + length (enc_frames sp 0 (firstn k frames) None) + j) (flac_encode sp frames)) =
+       LOk (fl_rate sp) (firstn (Z.to_nat (total_of (firstn k frames))) frs)).
+Proof. exact flac_load_bad_files_lemma. Qed.
 
 (** The conversion of FLAC samples (i32 shifted to the top of the word, divided by 2^31 in
-    binary64, cast to binary32) is EXACT for 8/16/24 bits: finite, value x / 2^(bits-1) ... *)
+    binary64, cast to binary32) is EXACT for 8/16/24 bits: finite, value x / 2^(bits-1) -- the
+    same value as the same sample in a WAV file of that size (existing [conv_exact]) ... *)
 Theorem flac_conv_exact :
   forall (b : fbps) (x : Z), fsample_ok b x ->
-    is_finite (fl_conv b x) = true /\ B2R (fl_conv b x) = fl_value b x.
-Proof. exact fl_conv_exact_lemma. Qed.
-
-(** ... the same value as the same sample in a WAV file of that size (existing [conv_exact]) ... *)
-Theorem flac_conv_matches_wav :
-  forall (b : fbps) (x : Z), fsample_ok b x ->
+    is_finite (fl_conv b x) = true /\ B2R (fl_conv b x) = fl_value b x /\
     let (f, x') := wav_twin b x in
     exact_fmt f /\ sample_ok f x' /\ B2R (fl_conv b x) = B2R (conv f x').
-Proof. exact fl_conv_wav_lemma. Qed.
+Proof. exact fl_conv_exact_wav_lemma. Qed.
 
 (** ... in [-1, 1), strictly monotone and injective. *)
-Theorem flac_conv_in_unit_interval :
-  forall (b : fbps) (x : Z), fsample_ok b x ->
-    le32 (Z32 (-1)) (fl_conv b x) = true /\ lt32 (fl_conv b x) (Z32 1) = true.
-Proof. exact fl_conv_in_unit_lemma. Qed.
-
-Theorem flac_conv_monotone :
+Theorem flac_conv_order :
   forall (b : fbps) (x y : Z), fsample_ok b x -> fsample_ok b y ->
-    (x < y)%Z -> lt32 (fl_conv b x) (fl_conv b y) = true.
-Proof. exact fl_conv_monotone_lemma. Qed.
-
-Theorem flac_conv_injective :
-  forall (b : fbps) (x y : Z), fsample_ok b x -> fsample_ok b y ->
-    fl_conv b x = fl_conv b y -> x = y.
-Proof. exact fl_conv_injective_lemma. Qed.
+    (le32 (Z32 (-1)) (fl_conv b x) = true /\ lt32 (fl_conv b x) (Z32 1) = true) /\
+    ((x < y)%Z -> lt32 (fl_conv b x) (fl_conv b y) = true) /\
+    (fl_conv b x = fl_conv b y -> x = y).
+Proof. exact fl_conv_order_lemma. Qed.
